@@ -231,7 +231,8 @@ def prefixes(job):
     for k, (pre, be) in enumerate(zip(("aa", "bb"), kinds)):
         rules = ["x+", "y", "[0-9]+", "z{2}"] if k == 0 else ["xy", "x", "[0-9]", "z+"]
         rng2 = rng.fork("r%d" % k)
-        text = "%%option noyywrap nounput noinput prefix=\"%s\"%s\n%%{\n#include <stdio.h>\n%%}\n%%%%\n" % (pre, " reentrant" if be == 'r' else "")
+        text = "%%option noyywrap nounput noinput prefix=\"%s\"%s%s\n%%{\n#include <stdio.h>\n%%}\n%%%%\n" % (
+            pre, " reentrant" if be == 'r' else "", rng2.pick(["", " array", " yylineno", " stack"]))
         for i, r in enumerate(rules):
             text += "%s\t{ printf(\"%s %d %%d\\n\", (int) yyleng); }\n" % (r, pre, i + 1)
         text += ".|\\n\t{ }\n%%\n"
